@@ -434,6 +434,79 @@ pub fn run(tier: &str, mode: Mode) -> i32 {
         rep.sub("case-variants", "letter-case variants of the token shapes (all 2,704 card-pair shapes and the 1,014 short shapes, every 40th span shape): each single letter flipped and all letters flipped, e.g. 'AsAS', 'aKs', 'AKS+'; distinct_nontrivial = variants that parse (none on the pinned grammar)", st_all.strings, st_all.parsed_tokens + st_all.nonempty_ranges, false, json!({"variants": variants.len()}));
     }
 
+    // (c3) junk around and inside the weight; weight spellings f32::from_str would accept but the notation does not
+    {
+        let heads = ["TT-88", "AQs-A9s", "KJo-K9o", "99+", "A9s+", "44", "JTs", "72o", "AsKs", "KsAs"];
+        let weights = ["0", "1", "0.5", "1.0", "0.25"];
+        let junk: Vec<&str> = ALPHA15.iter().cloned().chain(["x", "e", "E", "_", "/", ";", "'", "\"", "\n", "\r"].into_iter()).collect();
+        let mut strings: Vec<String> = vec![];
+        for h in heads {
+            for w in weights {
+                for j in &junk {
+                    strings.push(format!("{}:{}{}", h, w, j));
+                    strings.push(format!("{}:{}{}", h, j, w));
+                    strings.push(format!("{}{}:{}", h, j, w));
+                    strings.push(format!("{}{}:{}", j, h, w));
+                    if w.len() > 1 {
+                        strings.push(format!("{}:{}{}{}", h, &w[..1], j, &w[1..]));
+                    }
+                }
+                strings.push(format!("{}:{}:{}", h, w, w));
+            }
+            for odd in ["-0.5", "+0.5", "-1", "-0", "-0.0", "+1", "1e0", "1e-1", "5e-1", "1E0", ".5", "0.", "1.", "inf", "-inf", "nan", "NaN", "infinity", "0x1", "1_0", "00", "01", "00.5", "1.5", "2", "10", "0.5f", "0,5", "½", "٠", "０"] {
+                strings.push(format!("{}:{}", h, odd));
+            }
+        }
+        let chunk = 128;
+        let nch = (strings.len() + chunk - 1) / chunk;
+        let outs = par_map(nch, |c| {
+            let mut st = Stats::default();
+            let mut bad = vec![];
+            for s in &strings[c * chunk..((c + 1) * chunk).min(strings.len())] {
+                st.strings += 1;
+                if let Some((stage, what)) = big_parsers(s, mode, false, &mut st) {
+                    if bad.len() < 3 {
+                        bad.push((s.clone(), stage, what));
+                    }
+                }
+            }
+            (st, bad)
+        });
+        let mut st_all = Stats::default();
+        for (st, bad) in outs {
+            st_all.strings += st.strings;
+            st_all.parsed_tokens += st.parsed_tokens;
+            for (s, stage, what) in bad {
+                push_viol(&mut rep, "weight-junk", &s, &stage, &what, mode);
+            }
+        }
+        rep.sub("weight-junk", "ten token heads x five weights x one junk symbol (alphabet plus x e E _ / ; quotes CR LF) after, before and inside the weight, before the colon and before the head; doubled weights; and 31 weight spellings a float parser accepts but the notation does not (signs, exponents, .5, inf, nan, 1.5, unicode digits); distinct_nontrivial = strings accepted as a token", st_all.strings, st_all.parsed_tokens, false, json!({}));
+    }
+
+    // (c4) longer strings with a multi-byte character straddling every small byte offset
+    if mode == Mode::Total {
+        let mut strings: Vec<String> = vec![];
+        for p in 0..=9usize {
+            for mb in ["\u{e9}", "\u{2660}", "\u{1F600}"] {
+                for n in [1usize, 2, 3, 4, 5, 6, 8, 11, 16, 17, 22, 33] {
+                    strings.push(format!("{}{}", "A".repeat(p), mb.repeat(n)));
+                    strings.push(format!("{}{}{}", "As".repeat(p), mb.repeat(n), "Ks"));
+                    strings.push(format!("{},{}", "AA".repeat(1), format!("{}{}", "K".repeat(p), mb.repeat(n))));
+                }
+            }
+        }
+        let outs = par_map(strings.len(), |i| {
+            let mut st = Stats::default();
+            small_parsers(&strings[i], &mut st).or_else(|| big_parsers(&strings[i], mode, false, &mut st))
+        });
+        for (i, o) in outs.into_iter().enumerate() {
+            if let Some((stage, what)) = o {
+                push_viol(&mut rep, "straddling-bytes", &strings[i], &stage, &what, mode);
+            }
+        }
+        rep.sub("straddling-bytes", "an ASCII prefix of 0..=9 characters followed by 1..33 copies of a 2-, 3- or 4-byte character (alone, wrapped in cards, as a list item): a multi-byte character straddles every byte offset up to 40 and every power of two up to 128, through all six parsers", strings.len() as u64, strings.len() as u64, false, json!({}));
+    }
+
     if mode == Mode::Total {
         // (d) over-long inputs
         let mut long: Vec<String> = vec![];
